@@ -1196,6 +1196,7 @@ func c05d(c *Ctx, r *Report) {
 func c05Staged(c *Ctx, r *Report) {
 	const clause = "C05.b"
 	st := c.GetStaged()
+	stagedErrors(r, "C05", st)
 	n := 0
 	for _, sc := range st.Configs {
 		if !sc.V.Packed || sc.V.Http {
